@@ -107,10 +107,16 @@ def self_test(pid):
     import shutil
     import tempfile
     out = []
+    limit = int(os.environ.get('VERIF_SELFTEST_MAX', '3'))      # keeps the thorough tier within minutes; all kept changes are
+    done = 0                                                    # re-checked by seeded/recheck.sh
     for d in sorted(glob.glob(os.path.join(VERIF, 'seeded', pid + '-*'))):
         patch = os.path.join(d, 'patch.diff')
         if not os.path.exists(patch):
             continue
+        if done >= limit:
+            out.append({'change': os.path.basename(d), 'applied': None, 'note': 'not run (limit of %d self-tests per run)' % limit})
+            continue
+        done += 1
         scratch = tempfile.mkdtemp(prefix='verif_selftest_')
         rec = {'change': os.path.basename(d)}
         try:
